@@ -855,3 +855,27 @@ Qed.
 
 Example exA_buffered : negb (t_hasbody exA_c) || t_buf exA_c = true.
 Proof. reflexivity. Qed.
+
+(* 502 is only ever returned once try_duration is spent, whatever the hosts and the selector do *)
+Theorem runT_502_only_spent :
+  forall (S : Type) (sel : S -> list bool -> option nat * S) c unh scr envdown fuel now fx cnt st fresh it t,
+  fst (runT S sel c unh scr envdown fuel now fx cnt st fresh it) = T502 t -> t_td c <= t.
+Proof.
+  intros S sel c unh scr envdown. induction fuel as [|f IH]; intros now fx cnt st fresh it t H; [discriminate|].
+  cbn [runT] in H. destruct (sel st _) as [[i|] st'].
+  - destruct (is_refuse _).
+    + unfold keep in H. destruct (t_td c <=? now) eqn:Hk.
+      * cbn in H. injection H as <-. lia.
+      * specialize (IH (now + t_ti c) fx (upd cnt i (Datatypes.S (cnt i))) st' fresh (Datatypes.S it) t).
+        destruct (runT _ _ _ _ _ _ f _ _ _ _ _ _) as [o tr]. apply IH. exact H.
+    + destruct (att_ok _ _); [discriminate|].
+      unfold keep in H. destruct (t_td c <=? now + adur (script_at (scr i) (cnt i))) eqn:Hk.
+      * cbn in H. injection H as <-. lia.
+      * match type of H with context [runT _ _ _ _ _ _ f ?a ?b ?d ?e ?g ?h] =>
+          specialize (IH a b d e g h t); destruct (runT _ _ _ _ _ _ f a b d e g h) as [o tr] end.
+        apply IH. exact H.
+  - unfold keep in H. destruct (t_td c <=? now) eqn:Hk.
+    + cbn in H. injection H as <-. lia.
+    + specialize (IH (now + t_ti c) fx cnt st' fresh (Datatypes.S it) t).
+      destruct (runT _ _ _ _ _ _ f _ _ _ _ _ _) as [o tr]. apply IH. exact H.
+Qed.
